@@ -232,8 +232,9 @@ def run_history(init_ids, ops, build_index, check='both', version=None):
         m.rows.append(r)
     if build_index:
         g.reindex()
+    from hszinc.datatypes import Ref
     ids = mk_ids()
-    keys = [k for k in ids.values() if not isinstance(k, (int, float))] + ['zzz', '@a', '7']      # non-numeric keys only
+    keys = [k for k in ids.values() if not isinstance(k, (int, float))] + ['zzz', '@a', '7', '@z', "@z 'dis'", Ref('z'), Ref('z', 'other name')]      # non-numeric keys only; string forms of the ids incl. a reference's display name
     for i, op in enumerate(ops):
         f = apply_op(g, m, op, counter)
         if f:
